@@ -293,6 +293,62 @@ fn lattice(run: &mut Run, dicts: &[DictCase], tier: Tier) {
     run.set("beyond_dictionary_offsets_the_reference_tolerates", x[3]);
 }
 
+/// The dictionary stays reachable while the output is within the window. Frames with a 1 KiB window whose first
+/// match starts in the dictionary and spills a long way into the output, followed - in a second block, at output
+/// position W-2, W-1 or exactly W - by another match into the dictionary: valid (libzstd decodes each of them), so
+/// the crate must decode them too. Whatever bookkeeping decides "still within the window" must count every output
+/// byte exactly once.
+fn window_edge(run: &mut Run, dicts: &[DictCase]) {
+    let th = meter::threads();
+    let d = dicts.iter().find(|d| d.name.starts_with("model")).unwrap();
+    let dl = d.model.content.len();
+    const W: usize = 1024;
+    let mut cases = vec![];
+    for spill in [0usize, 1, 50, 500, 900] {
+        for r in [1usize, dl / 2 + 1, dl] {
+            for p2 in [W - 2, W - 1, W] {
+                for r2 in [1usize, dl] {
+                    if r + spill <= p2 && r + spill >= 3 {
+                        cases.push((spill, r, p2, r2));
+                    }
+                }
+            }
+        }
+    }
+    let accs = meter::par_fold(cases.len(), th, Acc::default, |a, k| {
+        let (spill, r, p2, r2) = cases[k];
+        a.evals += 1;
+        let ml1 = r + spill;
+        let tail: Vec<u8> = (0..p2 - ml1).map(|i| (i * 7 + 3) as u8).collect();
+        let blocks = vec![
+            Block::Compressed { lits: Lits::Raw(tail.clone(), if tail.len() < 32 { 0 } else { 1 }), count_form: 1, modes: pre(), seqs: vec![Seq { ll: 0, ml: ml1 as u32, of: 3 + r as u32 }], pick: 0 },
+            Block::Compressed { lits: Lits::Raw(vec![], 0), count_form: 1, modes: pre(), seqs: vec![Seq { ll: 0, ml: 3, of: 3 + (p2 + r2) as u32 }], pick: 0 },
+        ];
+        let header = Header { window_desc: Some(0), dict_id: Some((1, d.model.id)), ..Default::default() };
+        let rp = json!({"case": "window_edge", "first_match_reach": r, "spill_into_output": spill, "second_match_at_output_position": p2, "second_match_reach": r2});
+        let Some((frame, want)) = realize(&FrameSpec { header, blocks }, Some(&d.model)) else {
+            a.bad("MODEL:window_edge:unrealisable".into(), format!("MODEL ERROR: window-edge frame {:?} cannot be realised", (spill, r, p2, r2)), rp);
+            return;
+        };
+        match refz::decode_with_dict(&frame, &d.raw) {
+            Ok(x) if x == want => a.extra[0] += 1,
+            other => {
+                a.bad("MODEL:window_edge".into(), format!("MODEL ERROR: libzstd on window-edge frame {:?}: {:?}", (spill, r, p2, r2), other.map(|v| v.len())), rp);
+                return;
+            }
+        }
+        a.nontrivial += 1;
+        let mut dec = FrameDecoder::new();
+        dec.add_dict(Dictionary::decode_dict(&d.raw).unwrap()).unwrap();
+        match crate_decode(&mut dec, &frame, None, 8192) {
+            Ok(out) if out == want => {}
+            other => a.bad(format!("window_edge:{}", if spill == 0 { "no_spill" } else { "after_spill" }), format!("a match {r} bytes into the dictionary spilling {spill} bytes into the output, then at output position {p2} (window {W}) a match {r2} bytes into the dictionary - valid, libzstd decodes it: {:?}", other.map(|v| v.len())), rp),
+        }
+    });
+    let x = merge(run, "C09", "dictionary_reach_at_the_window_edge", accs, true);
+    run.add("model_frames_validated_by_reference", x[0]);
+}
+
 /// mixes of dictionary frames and plain frames on one decoder vs fresh decoders
 fn histories(run: &mut Run, dicts: &[DictCase], tier: Tier) {
     let th = meter::threads();
@@ -419,9 +475,10 @@ pub fn main(tier: Tier, replay: Option<Value>) -> i32 {
     reference_matrix(&mut run, &dicts, tier);
     model_frames(&mut run, &dicts);
     lattice(&mut run, &dicts, tier);
+    window_edge(&mut run, &dicts);
     histories(&mut run, &dicts, tier);
     run.set("exhaustive", false);
-    run.set("rule", "3 ZDICT-trained and 2 model-built dictionaries; libzstd frames over levels x windowLog x dictID flag x 6 inputs decoded by id and by force_dict, and refused with the right id when the dictionary is missing; model frames whose first block is treeless / uses Repeat for each table / every repeat-offset code so that the dictionary's tables and offsets are the starting state (each validated by libzstd with the dictionary); the complete seam lattice (output position 0..=8 x literal run {0,2} x reach 1..=dict_len+1 x match length 3..=12/20) incl. the one-past offset that must be rejected; every history of 3/4 items over {frame with dictionary A, frame with dictionary B, plain frame, plain frame that needs leaked tables, plain frame that needs leaked content, unregistered id} on one decoder vs fresh decoders");
+    run.set("rule", "3 ZDICT-trained and 2 model-built dictionaries; libzstd frames over levels x windowLog x dictID flag x 6 inputs decoded by id and by force_dict, and refused with the right id when the dictionary is missing; model frames whose first block is treeless / uses Repeat for each table / every repeat-offset code so that the dictionary's tables and offsets are the starting state (each validated by libzstd with the dictionary); the complete seam lattice (output position 0..=8 x literal run {0,2} x reach 1..=dict_len+1 x match length 3..=12/20) incl. the one-past offset that must be rejected; dictionary reach at the window edge (first match spilling 0..900 bytes from the dictionary into the output, a second match into the dictionary at output position W-2 / W-1 / W of a 1 KiB window); every history of 3/4 items over {frame with dictionary A, frame with dictionary B, plain frame, plain frame that needs leaked tables, plain frame that needs leaked content, unregistered id} on one decoder vs fresh decoders");
     run.sample(json!({"case": "lattice", "position": 3, "ll": 2, "reach": 4, "ml": 9, "meaning": "match starts 4 bytes before the end of the dictionary, crosses into the 5 output bytes and overlaps itself"}));
     run.assume("libzstd 1.5.7 (ZDICT trainer and decoder) defines valid dictionaries and frames");
     run.finish()
